@@ -154,9 +154,12 @@ fn scan_with<V: Vmer, P: Kmer>(v: &V, k: usize, score: &dyn Fn(&[u8]) -> usize, 
 
 fn c07_p<P: Kmer>(c: &mut Case) -> Result<(), String> {
     let p = P::k();
-    let k = if c.rng.chance(1, 6) { p } else { p + c.rng.below(41) };
+    // k - p >= 256 rarely: windows of several hundred p-mers (algorithm-switch thresholds)
+    let wide = c.rng.chance(1, 60);
+    let k = if wide { p + c.rng.range(250, 400) } else if c.rng.chance(1, 6) { p } else { p + c.rng.below(41) };
+    if wide { c.count("scans_with_window_of_250_or_more_pmers", 1); }
     let alpha = *c.rng.pick(&[1usize, 2, 2, 3, 4, 4]);
-    let m = if c.rng.chance(1, 5) { k + c.rng.below(3) } else { k + c.rng.below(4 * k + 4) };
+    let m = if c.rng.chance(1, 5) { k + c.rng.below(3) } else if wide { k + c.rng.below(k + 40) } else { k + c.rng.below(4 * k + 4) };
     let mut seq: S = c.rng.bases(m, alpha);
     if c.rng.chance(1, 4) {
         // tandem repeat: the minimizer recurs inside one window
@@ -279,6 +282,7 @@ pub fn run_c07(ctx: &Ctx) {
     if !ctx.is_miri() {
         ctx.require("intervals", 10_000);
         ctx.require("scans_k_equals_p", 100);
+        ctx.require("scans_with_window_of_250_or_more_pmers", 1000);
         ctx.require("tied_minimum_pmers", 1000);
         ctx.require("simple_scan_comparisons", 100);
     }
@@ -346,6 +350,32 @@ fn c08_run<P: Kmer, V: Vmer>(
                 exts.val,
                 e
             );
+            // the bucket must be the canonical value of a minimum-score p-mer (under the caller's
+            // permutation, strand-folded in rc mode) that lies inside every k-mer of the piece
+            {
+                let rank = |s: &[u8]| s.iter().fold(0usize, |a, b| (a << 2) | *b as usize);
+                let pscore = |s: &[u8]| -> usize {
+                    let f = match perm { Some(pm) => pm[rank(s)], None => rank(s) };
+                    if rcmode {
+                        let r = rc(s);
+                        f.min(match perm { Some(pm) => pm[rank(&r)], None => rank(&r) })
+                    } else {
+                        f
+                    }
+                };
+                let best = (start..=start + len - p).map(|q| pscore(&read[q..q + p])).min().unwrap();
+                let lo = start + len - k; // last k-mer start
+                let hi = start + k - p; // last position still inside the first k-mer
+                let ok = (lo..=hi.min(start + len - p)).any(|q| {
+                    let pm = &read[q..q + p];
+                    pscore(pm) == best && rank(&canon_s(pm, false)) as u32 == *bucket
+                });
+                ensure!(
+                    ok,
+                    "piece {} of read {} [{}..{}): bucket {} is not the canonical value of a minimum-score p-mer shared by all its k-mers (minimum score in the piece: {})",
+                    j, ri, start, start + len, bucket, best
+                );
+            }
             for i in 0..=(len - k) {
                 let w = &read[start + i..start + i + k];
                 let key = if rcmode { canon_s(w, false) } else { w.to_vec() };
@@ -412,7 +442,11 @@ fn c08_case<P: Kmer>(c: &mut Case) -> Result<(), String> {
     }
     // read set in which k-mers recur: base, rc, sub-reads, tandem repeats
     let alpha = *c.rng.pick(&[2usize, 3, 4, 4]);
-    let base = c.rng.bases(k + c.rng.below(4 * k + 20), alpha);
+    // rarely a read longer than 2^16 / 2^17 bases (window / counter thresholds in the scanner)
+    let long_read = !c.lane_miri && maxlen == usize::MAX && c.rng.chance(1, 400);
+    let base_len = if long_read { *c.rng.pick(&[65_530usize, 65_600, 131_100, 200_000]) + c.rng.below(50) } else { k + c.rng.below(4 * k + 20) };
+    if long_read { c.count("read_sets_with_read_longer_than_65536", 1); }
+    let base = c.rng.bases(base_len, alpha);
     let mut reads = vec![base.clone()];
     for _ in 0..c.rng.range(1, 5) {
         let r = match c.rng.below(6) {
@@ -491,6 +525,7 @@ pub fn run_c08(ctx: &Ctx) {
         _ => c08_case::<Kmer8>(c),
     });
     if !ctx.is_miri() {
+        ctx.require("read_sets_with_read_longer_than_65536", 100);
         ctx.require("repeated_observations", 10_000);
         ctx.require("cases_rc_mode", 100);
         ctx.require("cases_piece_container_at_capacity", 100);
